@@ -42,6 +42,9 @@ type BindInput struct {
 	// CHasT: module c declares t too (base empty), so the prefix c resolves in the module (to c) and
 	// in its submodule (to b) within one program
 	CHasT bool `json:"c_defines_t,omitempty"`
+	// SubOwnPfx: the submodule says belongs-to a { prefix self; } and imports module b under the
+	// prefix a, which its owner declares for itself: a:t means b's t there
+	SubOwnPfx bool `json:"submodule_binds_owner_prefix,omitempty"`
 }
 
 // bindWorld builds the program: typedef t at the given scopes, a reference leaf at each given site.
@@ -77,6 +80,9 @@ func bindWorld(in BindInput) (*ir.World, map[string][]string) {
 	as := &ir.Mod{Name: "as", Owner: "a", Imports: []string{"b"}}
 	if in.SubAlias {
 		as = &ir.Mod{Name: "as", Owner: "a", Alias: map[string]string{"c": "b"}}
+	}
+	if in.SubOwnPfx {
+		as = &ir.Mod{Name: "as", Owner: "a", BelongsPfx: "self", Alias: map[string]string{"a": "b"}}
 	}
 	b := &ir.Mod{Name: "b", Includes: []string{"bs"}}
 	bs := &ir.Mod{Name: "bs", Owner: "b"}
@@ -475,7 +481,7 @@ func shards(tier string) []string {
 }
 
 func run(c *core.Ctx) {
-	c.Res.Bound = "bind: typedef t at every subset of <= 3 (thorough 4) of 11 scopes x 5 spellings (bare, own prefix, foreign prefix, unknown prefix, prefix of a module without t) x 10 reference sites (all sites in one program when all resolve, one program per site otherwise), 3 prefix regimes (same prefixes in module and submodule; the submodule calls b by the prefix its owner gives c; the same with c defining t too, so one prefix resolves to two modules within one program), 2 load orders; chain: 3-level chains, 2^9 set/omit patterns of units/default/pattern x 4 leaf additions for strings, 2^6 for enum, bits, leafref, decimal64, union, identityref bases; same-name: 2 programs whose chains pass through different typedefs of one name (across imports, by shadowing), 4 load orders, 12 fresh sets each; union: every ordered pair and triple of 26 member types (near-equal enums, ranges, typedefs of the same name in two modules, bits, identityrefs, leafrefs, decimal64s, a nested union) read directly, through a typedef chain, in a leaf-list and through a grouping, 2 load orders; errors: 22 unknown/unresolvable/cyclic references, in a module and in a submodule, processed twice"
+	c.Res.Bound = "bind: typedef t at every subset of <= 3 (thorough 4) of 11 scopes x 5 spellings (bare, own prefix, foreign prefix, unknown prefix, prefix of a module without t) x 10 reference sites (all sites in one program when all resolve, one program per site otherwise), 4 prefix regimes (the submodule importing b under the prefix its owner declares for itself, with a belongs-to prefix of its own; same prefixes in module and submodule; the submodule calls b by the prefix its owner gives c; the same with c defining t too, so one prefix resolves to two modules within one program), 2 load orders; chain: 3-level chains, 2^9 set/omit patterns of units/default/pattern x 4 leaf additions for strings, 2^6 for enum, bits, leafref, decimal64, union, identityref bases; same-name: 2 programs whose chains pass through different typedefs of one name (across imports, by shadowing), 4 load orders, 12 fresh sets each; union: every ordered pair and triple of 26 member types (near-equal enums, ranges, typedefs of the same name in two modules, bits, identityrefs, leafrefs, decimal64s, a nested union) read directly, through a typedef chain, in a leaf-list and through a grouping, 2 load orders; errors: 22 unknown/unresolvable/cyclic references, in a module and in a submodule, processed twice"
 	report := func(caseNo int64, in Input, f *fail) {
 		c.Outcome("FAIL:" + f.fp)
 		c.Fail(caseNo, nil, f.fp, in, f.exp, f.obs)
@@ -501,8 +507,11 @@ func run(c *core.Ctx) {
 					c.Outcome("excluded:t-declared-twice-in-one-module-namespace")
 					continue
 				}
-				for regime := 0; regime < 3; regime++ {
-					alias, cHasT := regime > 0, regime == 2
+				for regime := 0; regime < 4; regime++ {
+					alias, cHasT, subOwn := regime == 1 || regime == 2, regime == 2, regime == 3
+					if subOwn && sp != "a:t" && sp != "t" {
+						continue
+					}
 					if alias && sp != "b:t" && sp != "c:t" {
 						continue
 					}
@@ -510,7 +519,7 @@ func run(c *core.Ctx) {
 						continue
 					}
 					// does every site resolve?
-					all := BindInput{Decl: decl, Spelling: sp, Sites: sites, SubAlias: alias, CHasT: cHasT}
+					all := BindInput{Decl: decl, Spelling: sp, Sites: sites, SubAlias: alias, CHasT: cHasT, SubOwnPfx: subOwn}
 					w, _ := bindWorld(all)
 					w.Build()
 					var progs []BindInput
@@ -518,7 +527,7 @@ func run(c *core.Ctx) {
 						progs = []BindInput{all}
 					} else {
 						for _, s := range sites {
-							progs = append(progs, BindInput{Decl: decl, Spelling: sp, Sites: []string{s}, SubAlias: alias, CHasT: cHasT})
+							progs = append(progs, BindInput{Decl: decl, Spelling: sp, Sites: []string{s}, SubAlias: alias, CHasT: cHasT, SubOwnPfx: subOwn})
 						}
 					}
 					for _, p := range progs {
